@@ -37,6 +37,17 @@ pub struct FileStorage {
 
 impl FileStorage {
     fn apply_wal_record(file: &mut File, record: WriteAheadLogRecord) -> Result<(), DbError> {
+        // an undo record never lies beyond the end of the data it restores
+        if file.seek(SeekFrom::End(0))? < record.pos {
+            return Err(DbError::storage(
+                DbErrorType::OutOfBounds,
+                format!(
+                    "Invalid write ahead log record: position ({}) beyond the end of the file",
+                    record.pos
+                ),
+            ));
+        }
+
         if record.value.is_empty() {
             #[cfg(agdb_verif)]
             crate::verif::fs_event(crate::verif::FsEvent::DataSetLen(record.pos));
@@ -53,7 +64,10 @@ impl FileStorage {
 
     fn apply_wal(file: &mut File, wal: &mut WriteAheadLog) -> Result<(), DbError> {
         for record in wal.records()?.into_iter().rev() {
+            let value_len = record.value.len() as u64;
             Self::apply_wal_record(file, record)?;
+            // undone: an interrupted recovery must not replay it on top of older records
+            wal.remove_last(value_len)?;
         }
 
         wal.clear()
